@@ -19,6 +19,7 @@ import (
 	"fmt"
 	"math/rand"
 	"os"
+	"path/filepath"
 	"runtime"
 	"strings"
 	"sync"
@@ -203,7 +204,7 @@ func (h *hclock) pending() bool {
 }
 
 type step struct {
-	Op    string `json:"op"` // sched | remove | entries | start | run | stop | adv | unblock
+	Op    string `json:"op"` // sched | remove | entries | start | run | stop | rmstop (Remove(id) and Stop issued together) | adv | unblock
 	Panic bool   `json:"panic,omitempty"` // the job panics on its first invocation (only with a chain that contains Recover)
 	P     int    `json:"p,omitempty"`
 	Ph    int    `json:"ph,omitempty"`
@@ -268,6 +269,7 @@ type result struct {
 	schedule []string
 	err      error
 	stuck    int
+	stuckOps string // names of the calls that never returned
 	hook     []string
 	// caller ops issued while a timer expiry was waiting to be picked up, by how the scheduler's select resolved
 	raceWake, raceOp int
@@ -307,6 +309,16 @@ func (t *invTable) entered() {
 		inv.entered = true
 	}
 	t.mu.Unlock()
+}
+
+// The wrapper constructors are called through variables set at init time so that they are not inlined into the
+// harness: an inlined constructor's closures carry the harness's package path in their symbol names, and the
+// quiescence detector (internal/sched) then takes a job waiting on DelayIfStillRunning's mutex for a goroutine
+// waiting on a harness lock, i.e. for one that is about to move.
+var mkRecover, mkSkip, mkDelay func(cron.Logger) cron.JobWrapper
+
+func init() {
+	mkRecover, mkSkip, mkDelay = cron.Recover, cron.SkipIfStillRunning, cron.DelayIfStillRunning
 }
 
 // wrapLogger is handed to the chain wrappers ("skip", "delay", recovered panics): replay text only.
@@ -386,21 +398,30 @@ func runProgram(b, hb *tv.Batch, prog program, seed int64) result {
 	opts := []cron.Option{cron.WithClock(clk), cron.WithLogger(&hlogger{rec: rec, hook: hook, gate: func(p string) { ctl.Point(p) }}), cron.WithLocation(loc)}
 	switch prog.Chain {
 	case "recover":
-		opts = append(opts, cron.WithChain(mark, cron.Recover(wlog)))
+		opts = append(opts, cron.WithChain(mark, mkRecover(wlog)))
 	case "skip":
-		opts = append(opts, cron.WithChain(mark, cron.SkipIfStillRunning(wlog)))
+		opts = append(opts, cron.WithChain(mark, mkSkip(wlog)))
 	case "delay":
-		opts = append(opts, cron.WithChain(mark, cron.DelayIfStillRunning(wlog)))
+		opts = append(opts, cron.WithChain(mark, mkDelay(wlog)))
 	case "recover+delay":
-		opts = append(opts, cron.WithChain(mark, cron.Recover(wlog), cron.DelayIfStillRunning(wlog)))
+		opts = append(opts, cron.WithChain(mark, mkRecover(wlog), mkDelay(wlog)))
 	case "recover+skip":
-		opts = append(opts, cron.WithChain(mark, cron.Recover(wlog), cron.SkipIfStillRunning(wlog)))
+		opts = append(opts, cron.WithChain(mark, mkRecover(wlog), mkSkip(wlog)))
 	}
 	c := cron.New(opts...)
 
 	nowTicks := func() int { return tickOf(clk.Now()) }
-	var cur *sched.Task
-	inflight := func() bool { return cur != nil && !cur.Done() }
+	var cur, cur2 *sched.Task // cur2: the Remove issued together with a Stop
+	nInflight := func() int {
+		n := 0
+		for _, t := range []*sched.Task{cur, cur2} {
+			if t != nil && !t.Done() {
+				n++
+			}
+		}
+		return n
+	}
+	inflight := func() bool { return nInflight() > 0 }
 	var harnessErr error
 	nextID, nStops, nRuns := 0, 0, 0
 	pc := 0
@@ -520,6 +541,31 @@ func runProgram(b, hb *tv.Batch, prog program, seed int64) result {
 					rec.ev("stop_ret", tv.M{"k": k})
 					go watch(ctx, rec, k)
 				})
+			case "rmstop": // both calls are in flight together (whichever gets runningMu first is served first)
+				nStops++
+				k := nStops
+				doRemove := func() {
+					rec.ev("remove_call", tv.M{"id": s.ID})
+					cur2 = ctl.Go("remove", func() {
+						c.Remove(cron.EntryID(s.ID))
+						rec.ev("remove_ret", tv.M{"id": s.ID})
+					})
+				}
+				doStop := func() {
+					rec.ev("stop_call", tv.M{"k": k})
+					cur = ctl.Go("stop", func() {
+						ctx := c.Stop()
+						rec.ev("stop_ret", tv.M{"k": k})
+						go watch(ctx, rec, k)
+					})
+				}
+				if rng.Intn(2) == 0 {
+					doRemove()
+					doStop()
+				} else {
+					doStop()
+					doRemove()
+				}
 			case "adv":
 				rec.ev("adv", tv.M{"now": nowTicks() + s.D})
 				clk.Step(time.Duration(s.D) * tickSec * time.Second)
@@ -649,8 +695,11 @@ func runProgram(b, hb *tv.Batch, prog program, seed int64) result {
 	res.schedule = d.Log
 	res.err = err
 	if err == nil {
-		if inflight() {
-			res.stuck = 1
+		res.stuck = nInflight() // a call that has not returned although nothing else can move
+		for _, t := range []*sched.Task{cur, cur2} {
+			if t != nil && !t.Done() {
+				res.stuckOps += ":" + t.Name
+			}
 		}
 		rec.ev("stuck", tv.M{"n": res.stuck})
 	}
@@ -779,6 +828,26 @@ func runHistories(mode string) []program {
 	return ps
 }
 
+// rmstopHistories: Remove and Stop issued together (in racing mode typically while the scheduler is parked at one of
+// its gates, so that both are pending when it reaches its select); both must return, the entry is gone and the
+// others resume after a restart.
+func rmstopHistories(mode string) []program {
+	var ps []program
+	for _, d0 := range []int{0, 1, 2} {
+		for _, id := range []int{1, 2} {
+			p := program{Loc: 19800, Mode: mode, Chain: "none", Prefix: []string{}}
+			p.Steps = append(p.Steps, step{Op: "sched", P: 2, Ph: 0}, step{Op: "sched", P: 3, Ph: 1}, step{Op: "start"})
+			if d0 > 0 {
+				p.Steps = append(p.Steps, step{Op: "adv", D: d0})
+			}
+			p.Steps = append(p.Steps, step{Op: "rmstop", ID: id}, step{Op: "adv", D: 2}, step{Op: "entries"}, step{Op: "start"},
+				step{Op: "adv", D: 2}, step{Op: "entries"}, step{Op: "adv", D: 2}, step{Op: "stop"})
+			ps = append(ps, p)
+		}
+	}
+	return ps
+}
+
 func chainHistories(mode string) []program {
 	var ps []program
 	// a job that panics on its first invocation under Recover: the entry's later activations must still enter the job
@@ -841,7 +910,12 @@ func genProgram(rng *rand.Rand, mode string) program {
 			addOne()
 		case r < 11 && len(live) > 0:
 			k := rng.Intn(len(live))
-			p.Steps = append(p.Steps, step{Op: "remove", ID: live[k]})
+			if running && rng.Intn(4) == 0 {
+				p.Steps = append(p.Steps, step{Op: "rmstop", ID: live[k]})
+				running = false
+			} else {
+				p.Steps = append(p.Steps, step{Op: "remove", ID: live[k]})
+			}
 			live = append(live[:k], live[k+1:]...)
 		case r < 14:
 			p.Steps = append(p.Steps, step{Op: "entries"})
@@ -958,17 +1032,34 @@ func TestCheck(t *testing.T) {
 		{cfg: "MC_chain_recover_delay.cfg", what: "WithChain(Recover, DelayIfStillRunning), job panics once"},
 		{cfg: "MC_defect_delaynodefer.cfg", what: "defect: DelayIfStillRunning unlocks without defer, job panics once", defect: true},
 		{cfg: "MC_defect_runresets.cfg", what: "defect: Run() clears c.running when it returns", defect: true},
+		{cfg: "MC_defect_removenolock.cfg", what: "defect: Remove does not take runningMu (left sending for ever when Stop wins)", defect: true},
 		{cfg: "MC_defect.cfg", what: "defect: stale now after remove", defect: true},
 		{cfg: "MC_defect_lateadd.cfg", what: "defect: jobWaiter.Add inside the job goroutine", defect: true},
 		{cfg: "MC_defect_unsortedadd.cfg", what: "defect: add arm keeps the timer and skips the re-sort", defect: true},
 		{cfg: "MC_defect_sharedmu.cfg", what: "defect: DelayIfStillRunning mutex shared by all entries", defect: true},
+	}
+	if !ev.Thorough() {
+		// quick tier: every passing configuration, and half of the defect variants (alternating with the seed;
+		// the thorough tier runs them all) - a dozen JVMs cost more wall time than anything else in this check
+		var keep []*smallMC
+		nd := 0
+		for _, m := range smalls {
+			if m.defect {
+				nd++
+				if (int64(nd)+ev.Seed())%2 != 0 {
+					continue
+				}
+			}
+			keep = append(keep, m)
+		}
+		smalls = keep
 	}
 	var mcwg sync.WaitGroup
 	for _, m := range smalls {
 		mcwg.Add(1)
 		go func(m *smallMC) {
 			defer mcwg.Done()
-			m.res = tlc.Run(tlc.Opts{Dir: "CronSched", Module: "MCCronSched", Config: m.cfg, Workers: 2, Timeout: 10 * time.Minute, HeapMB: 3000, Args: []string{"-noGenerateSpecTE"}})
+			m.res = tlc.Run(tlc.Opts{Dir: "CronSched", Module: "MCCronSched", Config: m.cfg, Workers: 2, Timeout: 10 * time.Minute, HeapMB: 1500, Args: []string{"-noGenerateSpecTE"}})
 		}(m)
 	}
 	mcwg.Wait()
@@ -1033,6 +1124,14 @@ func TestCheck(t *testing.T) {
 	}
 	for _, p := range runHistories("seq") {
 		run(p, rng.Int63())
+	}
+	for _, p := range rmstopHistories("seq") {
+		run(p, rng.Int63())
+	}
+	for i := 0; i < ev.Pick(4, 40); i++ {
+		for _, p := range rmstopHistories("race") {
+			run(p, rng.Int63())
+		}
 	}
 	for i := 0; i < ev.Pick(4, 40); i++ {
 		for _, p := range runHistories("race") {
@@ -1117,6 +1216,10 @@ func TestCheck(t *testing.T) {
 			continue
 		}
 		i := idx[r.Trace]
+		if strings.HasPrefix(r.Why, "wedged") {
+			e.Violation(keyOf(r.Why, progs[i])+results[i].stuckOps, r.Why, tv.M{"program": progs[i], "schedule": results[i].schedule, "hook_trace": results[i].hook, "trace": jb.TraceStrings(r.Trace), "at": r.At})
+			continue
+		}
 		e.Violation(keyOf(r.Why, progs[i]), r.Why, tv.M{"program": progs[i], "schedule": results[i].schedule, "hook_trace": results[i].hook, "trace": jb.TraceStrings(r.Trace), "at": r.At})
 	}
 	// binding of the implementation-shaped model: hook-level traces must be behaviours of CronSched.tla (drift, not verdict)
@@ -1136,6 +1239,18 @@ func TestCheck(t *testing.T) {
 	e.Set("drift", len(hmissing) > 0 || !hres.OK)
 	if !hres.OK {
 		fmt.Printf("DRIFT property=C05 the model-binding validation did not run: %s %s\n", hres.What, hres.Tail(800))
+	}
+	if len(hmissing) > 0 { // keep the unexplained traces next to the replay files
+		var buf []byte
+		for _, m := range hmissing {
+			for _, l := range jhb.TraceStrings(m) {
+				buf = append(buf, l...)
+				buf = append(buf, '\n')
+			}
+		}
+		dir := filepath.Join(ev.EvidenceDir(), "replay")
+		_ = os.MkdirAll(dir, 0o755)
+		_ = os.WriteFile(filepath.Join(dir, "C05-drift.ndjson"), buf, 0o644)
 	}
 	if len(hmissing) > 0 {
 		fmt.Printf("DRIFT property=C05 %d hook-level traces are not behaviours of CronSched.tla (model and code diverge; not a violation by itself), first: %v\n", len(hmissing), jhb.TraceStrings(hmissing[0]))
